@@ -15,7 +15,7 @@ from vlib import mw, refs
 
 ID = "C12"
 LEVEL = "exploration"
-RULE = ("Hypothesis-generated schedules: 2..16 client threads with scripts of 1..5 mixed "
+RULE = ("two slow-device schedules (exchanges of 0.6-1.4 s adding up to more than the 10 s link time-out) and Hypothesis-generated schedules: 2..16 client threads with scripts of 1..5 mixed "
         "multi-APDU requests, start offsets and per-exchange device-side delays, against the real "
         "TCPServer over real sockets; non-trivial = run in which >= 2 multi-APDU requests of "
         "different clients were in flight at the same time (client-side timestamps); distinct by "
